@@ -639,7 +639,7 @@ def trace_cfg(known, wd):
     return f
 
 
-def validate_batches(ck, batches, expect_reject=False):
+def validate_batches(ck, batches, expect_reject=False, accepted=None):
     """batch validation by TypeResolveTrace, the batches concurrently.  batches: list of (name, records).
     Records whose run raised are violations right away.  Returns {name: (rejected tids, verdicts)}."""
     jobs, goods = [], {}
@@ -692,6 +692,8 @@ def validate_batches(ck, batches, expect_reject=False):
                 for sig in b.split("+"):
                     ck.violation({"kind": "I->S record", "record": r, "verdict": [b, n]}, sig=sig, what="known deviation " + sig)
             ck.traces += 1
+            if accepted is not None and b == "ok" and n == "ok":
+                accepted.append(r)
             ck.nontrivial.add(hashlib.sha1(json.dumps([r["top"], r["nb"]], sort_keys=True).encode()).hexdigest())
         ck.extra["records_outside_domain_skipped"] = ck.extra.get("records_outside_domain_skipped", 0) + nskip
     return out
@@ -712,6 +714,11 @@ def binding_demo(ck, recs):
         if len(pick) == 4:
             break
     if len(pick) < 4:
+        if ck.violations:
+            # the code under test misbehaves on so many records that no accepted baseline is left; the demonstration
+            # needs accepted records and says nothing about the code, so it is skipped (the check already exits 1)
+            ck.note("binding demonstration skipped: fewer than 4 accepted records to corrupt")
+            return
         raise c.MachineryError("binding demonstration: not enough suitable records")
     docs = [json.loads(json.dumps(r)) for r in pick]
     # 1: one resolved parameter of one bond of the last instance altered
@@ -813,12 +820,17 @@ def run(tier):
         ck.sample({"I->S record (seed %s)" % r0["seed"]: {"molecules": r0["top"]["molecules"], "dihedraltypes": r0["top"]["tables"]["dihedrals"][:4],
                                                           "first instance, dihedrals": (r0["obs"]["inst"] or [{"inter": {"dihedrals": []}}])[0]["inter"]["dihedrals"][:4]}})
     ck.stage("TLC: validate %d records" % (len(recs) + len(big) + len(repo)))
-    half = len(recs) // 2
-    validate_batches(ck, [("records_a", recs[:half]), ("records_b", recs[half:]), ("records_big", big), ("records_repo", repo)])
+    accepted = []
+    bsz = 120 if tier == "quick" else 300
+    batches = [("records_%d" % i, recs[k:k + bsz]) for i, k in enumerate(range(0, len(recs), bsz))]
+    batches += [("records_big_%d" % i, big[k:k + 100]) for i, k in enumerate(range(0, len(big), 100))]
+    batches.append(("records_repo", repo))
+    for k in range(0, len(batches), max(2, c.NPROC // 2)):
+        validate_batches(ck, batches[k:k + max(2, c.NPROC // 2)], accepted=accepted)
     nerr_rec = sum(1 for r in recs + big if "exception" not in r and r["obs"]["err"])
     ck.extra["records_with_unmatched_interaction"] = nerr_rec
     ck.stage("binding demonstration")
-    binding_demo(ck, recs + big)
+    binding_demo(ck, [r for r in accepted if "nbtok" in r])
     ck.exhaustive = True
     return ck.finish()
 
